@@ -67,7 +67,12 @@ fn support_files(c: &Config) -> Vec<ProjFile> {
         v.push(ProjFile::from_doc("foo", Document::new("a.b", Item::new(kind, "Foo"))));
     }
     if c.cfoo {
-        v.push(ProjFile::from_doc("cfoo", Document::new("c", Item::new(ItemKind::Parcelable, "Foo"))));
+        // this file has a recovered syntax error (tree + diagnostics): it still registers c.Foo
+        let mut f = ProjFile::from_doc("cfoo", Document::new("c", Item::new(ItemKind::Parcelable, "Foo")));
+        f.text = "package c; parcelable Foo { int ; int x; }".to_string();
+        v.push(f);
+        // a project item named like a built-in: imports of it resolve to the item
+        v.push(ProjFile::from_doc("myib", Document::new("my", Item::new(ItemKind::Enum, "IBinder"))));
     }
     if c.xfoo {
         v.push(ProjFile::from_doc("xfoo", Document::new("a.b", Item::new(ItemKind::Enum, "XFoo"))));
@@ -108,6 +113,10 @@ fn observed(c: &Config, which: usize, only: Option<(usize, usize, usize)>) -> Do
     for (i, n) in DECLS.iter().enumerate() {
         if c.decls & (1 << i) != 0 {
             d.decls.push(Decl::new(n));
+            if *n == "Bar" {
+                // a forward declaration named like a built-in wins over the built-in
+                d.decls.push(Decl::new("ParcelFileDescriptor"));
+            }
         }
     }
     d
@@ -115,7 +124,19 @@ fn observed(c: &Config, which: usize, only: Option<(usize, usize, usize)>) -> Do
 
 pub fn make_case(c: &Config, which: usize, only: Option<(usize, usize, usize)>, h: History, label: String) -> Case {
     let mut files = support_files(c);
-    files.push(ProjFile::from_doc("obs", observed(c, which, only)));
+    let spaced = label.contains("layout=spaced");
+    if spaced {
+        // every token of the observed file separated by a comment and a line break
+        let mut d = observed(c, which, only);
+        let toks = emit(&mut d);
+        let r = crate::model::layout::render(
+            &toks,
+            &crate::model::layout::Layout { name: "spaced".into(), dev: vec![], base: Some(" /*c*/\n".into()) },
+        );
+        files.push(ProjFile::from_rendered("obs", d, r));
+    } else {
+        files.push(ProjFile::from_doc("obs", observed(c, which, only)));
+    }
     let oi = files.len() - 1;
     let exp = expect_observed(&files, oi);
     // region: the name span of every user-type reference
@@ -210,6 +231,7 @@ pub fn run(tier: Tier, seed: u64) -> i32 {
                 c.xfoo,
                 ["interface", "parcelable"][which]
             );
+            let label = if h == History::Plain && ci % 3 == 1 { format!("{label} layout=spaced") } else { label };
             stats.nontrivial(fnv(&format!("{:?}{}{}{}{}", c.imports, c.decls, c.foo_kind, c.cfoo, c.xfoo)));
             let case = make_case(c, which, None, h, label);
             if i % 4001 == 0 {
